@@ -485,6 +485,13 @@ class SchedSim(object):
             for s in slots:
                 if len(set(s['cores'])) != len(s['cores']):
                     self.bad('C02', 'duplicate_core_in_slot:jsrun', '%s: %s' % (uid, s))
+                    self.bad('C01', 'core_held_twice:same_task:jsrun', '%s: ranks of one resource set '
+                             'share a core: %s' % (uid, s))
+                elif len(s['cores']) != s['nranks'] * cpr:
+                    self.bad('C02', 'cores_per_rank:jsrun', '%s: %d cores for %d ranks of %d cores: %s'
+                             % (uid, len(s['cores']), s['nranks'], cpr, s))
+            if gpr and 0 < gpr < 1:
+                self.stats['frac_gpu'] += 1
             return
         if len(slots) != ranks:
             self.bad('C02', 'rank_count', '%s: %d slots for %d ranks' % (uid, len(slots), ranks))
